@@ -565,7 +565,7 @@ func (p *Prog) modset(e *Engine, fn *ssa.Function) map[string]bool {
 					}
 					if lc != nil {
 						for _, mm := range lc.Modifies {
-							for _, h := range e.staticModHeapsLib(lc, mm) {
+							for _, h := range e.staticModHeapsLibAt(lc, mm, callRecvType(cc)) {
 								m[h] = true
 							}
 						}
